@@ -31,36 +31,36 @@ type nameDef struct {
 }
 
 type Frame struct {
-	g        *Gen
-	fn       *ssa.Function
-	sfx      string
-	top      bool
-	vals     map[ssa.Value]Val
-	reach    map[*ssa.BasicBlock]string
-	heapOut  map[*ssa.BasicBlock]*HeapState
-	loops    []*Loop
-	loopAt   map[*ssa.BasicBlock]*Loop
-	order    []*ssa.BasicBlock
-	backEdge map[[2]int]bool
-	args     []Val
-	cur      *HeapState
-	curBlock *ssa.BasicBlock
-	curReach string
-	entry    *HeapState
+	g          *Gen
+	fn         *ssa.Function
+	sfx        string
+	top        bool
+	vals       map[ssa.Value]Val
+	reach      map[*ssa.BasicBlock]string
+	heapOut    map[*ssa.BasicBlock]*HeapState
+	loops      []*Loop
+	loopAt     map[*ssa.BasicBlock]*Loop
+	order      []*ssa.BasicBlock
+	backEdge   map[[2]int]bool
+	args       []Val
+	cur        *HeapState
+	curBlock   *ssa.BasicBlock
+	curReach   string
+	entry      *HeapState
 	entryReach string
-	names    map[string][]nameDef
-	depth    map[*ssa.BasicBlock]int
-	retReach []string
-	retVals  [][]Val
-	retHeaps []*HeapState
-	defers   []*ssa.Defer
-	results  []Val
-	exitHeap *HeapState
-	exitReach string
-	instrIdx map[ssa.Instruction]int
-	freeVars map[*ssa.FreeVar]Val
-	closures map[*ssa.MakeClosure]bool
-	ranges   map[*ssa.Range]*HeapState
+	names      map[string][]nameDef
+	depth      map[*ssa.BasicBlock]int
+	retReach   []string
+	retVals    [][]Val
+	retHeaps   []*HeapState
+	defers     []*ssa.Defer
+	results    []Val
+	exitHeap   *HeapState
+	exitReach  string
+	instrIdx   map[ssa.Instruction]int
+	freeVars   map[*ssa.FreeVar]Val
+	closures   map[*ssa.MakeClosure]bool
+	ranges     map[*ssa.Range]*HeapState
 }
 
 func (g *Gen) newFrame(fn *ssa.Function, sfx string, top bool) *Frame {
@@ -187,7 +187,15 @@ func (f *Frame) loopMods(lp *Loop) *ModSet {
 		for _, in := range b.Instrs {
 			switch in := in.(type) {
 			case *ssa.Store:
-				f.g.P.storeKeys(in.Addr, ms)
+				if a, path, priv := privRoot(in.Addr); priv {
+					f.privKeys(f.privKey(a)+path, in.Addr.Type().Underlying().(*types.Pointer).Elem(), ms)
+				} else {
+					f.g.P.storeKeys(in.Addr, ms)
+				}
+			case *ssa.Alloc:
+				if privateAlloc(in) {
+					f.privKeys(f.privKey(in), in.Type().Underlying().(*types.Pointer).Elem(), ms)
+				}
 			case *ssa.MapUpdate:
 				ms.Maps[mapKey(in.Map.Type())+"!d"] = true
 				ms.Maps[mapKey(in.Map.Type())+"!v"] = true
@@ -199,6 +207,16 @@ func (f *Frame) loopMods(lp *Loop) *ModSet {
 		}
 	}
 	return ms
+}
+
+func (f *Frame) privKeys(key string, t types.Type, ms *ModSet) {
+	if st, ok := t.Underlying().(*types.Struct); ok {
+		for i := 0; i < st.NumFields(); i++ {
+			f.privKeys(fmt.Sprintf("%s.%d", key, i), st.Field(i).Type(), ms)
+		}
+		return
+	}
+	ms.Maps[key] = true
 }
 
 func (g *Gen) callMods(c *ssa.CallCommon, ms *ModSet) {
@@ -322,7 +340,7 @@ func (f *Frame) define(v ssa.Value, x Val) Val {
 		return x
 	}
 	n := f.g.declConst(f.symName(v), x.Sort)
-	f.g.assume(eq(n, x.S))
+	f.g.assumeDef(n, eq(n, x.S))
 	x.S = n
 	f.vals[v] = x
 	return x
@@ -406,7 +424,7 @@ func (f *Frame) nameReach(b *ssa.BasicBlock, def string) string {
 		return def
 	}
 	n := f.g.declConst(fmt.Sprintf("r!%d%s", b.Index, f.sfx), "Bool")
-	f.g.assume(eq(n, def))
+	f.g.assumeDef(n, eq(n, def))
 	return n
 }
 
@@ -430,7 +448,7 @@ func (f *Frame) finish() {
 	}
 	f.exitReach = or(f.retReach...)
 	n := g.declConst("r!exit"+f.sfx, "Bool")
-	g.assume(eq(n, f.exitReach))
+	g.assumeDef(n, eq(n, f.exitReach))
 	f.exitReach = n
 	f.exitHeap = g.mergeHeaps(f.retHeaps, f.retReach)
 	for i := 0; i < nres; i++ {
@@ -447,7 +465,7 @@ func (f *Frame) finish() {
 		}
 		rn := g.declConst(fmt.Sprintf("$result%d%s", i, f.sfx), g.sortOf(t))
 		for k, rv := range f.retVals {
-			g.assume(implies(f.retReach[k], eq(rn, rv[i].S)))
+			g.assumeDef(rn, implies(f.retReach[k], eq(rn, rv[i].S)))
 		}
 		f.results = append(f.results, Val{S: rn, Sort: g.sortOf(t), GT: t})
 	}
@@ -511,7 +529,7 @@ func (f *Frame) enterLoop(lp *Loop) {
 		} else {
 			n := g.freshConst("phi_entry_"+phi.Name(), g.sortOf(phi.Type()))
 			for i, v := range vals {
-				g.assume(implies(conds[i], eq(n, v.S)))
+				g.assumeDef(n, implies(conds[i], eq(n, v.S)))
 			}
 			over[phi] = Val{S: n, Sort: g.sortOf(phi.Type()), GT: phi.Type()}
 		}
@@ -535,7 +553,7 @@ func (f *Frame) enterLoop(lp *Loop) {
 		}
 		v := g.havocVal(f.symName(phi)[1:], phi.Type())
 		f.vals[phi] = v
-		g.assume(implies(f.curReach, g.typeInv(v, f.alloc())))
+		g.assumeDef(v.S, implies(f.curReach, g.typeInv(v, f.alloc())))
 	}
 	lp.headHeap = f.cur
 	if f.top {
